@@ -21,7 +21,9 @@ T0 == [key |-> "", known |-> FALSE, regG |-> FALSE, regK |-> FALSE, ended |-> FA
        serves |-> 0, serveRets |-> 0, stopped |-> FALSE, stopRet |-> FALSE, closing |-> FALSE, unreg |-> FALSE,
        servedAfterStop |-> FALSE,
        \* Stop / GracefulStop calls on this tunnel's server and their returns; srv = the tunnel that stands for the server
-       stopCalls |-> 0, stopRets |-> 0, gstopCalls |-> 0, gstopRets |-> 0, srv |-> 0]
+       stopCalls |-> 0, stopRets |-> 0, gstopCalls |-> 0, gstopRets |-> 0, srv |-> 0,
+       \* whether the serving end disabled flow control; the revision the channel reported when it was registered
+       nofc |-> FALSE, rev |-> -1]
 RQ0 == [at |-> FALSE, enum |-> <<>>, ready |-> [all |-> FALSE], parked |-> <<>>, pending |-> <<>>, hlive |-> <<>>, final |-> FALSE, g |-> 0]
 
 TN(t) == IF t \in DOMAIN tn THEN tn[t] ELSE T0
@@ -78,7 +80,10 @@ C10_StopReturns == Quiet => \A t \in DOMAIN tn : tn[t].stopRets = tn[t].stopCall
 C10_GracefulStopReturnsWhenDrained ==
   Quiet => \A t \in DOMAIN tn : (tn[t].gstopRets < tn[t].gstopCalls) =>
               \E u \in Seqset(rq.enum) : u \in DOMAIN tn /\ tn[u].srv = tn[t].srv
-Formulas == [C10_StopReturns |-> C10_StopReturns, C10_GracefulStopReturnsWhenDrained |-> C10_GracefulStopReturnsWhenDrained,
+\* every tunnel negotiates for itself: revision one exactly when its serving end has not disabled flow control,
+\* whatever other tunnels of the same handler negotiated before
+C11_RevisionPerTunnel == \A t \in DOMAIN tn : tn[t].rev # -1 => tn[t].rev = (IF tn[t].nofc THEN 0 ELSE 1)
+Formulas == [C11_RevisionPerTunnel |-> C11_RevisionPerTunnel, C10_StopReturns |-> C10_StopReturns, C10_GracefulStopReturnsWhenDrained |-> C10_GracefulStopReturnsWhenDrained,
              C12_RegistryMatches |-> C12_RegistryMatches, C12_RoutedToOpenRightKey |-> C12_RoutedToOpenRightKey,
              C12_ReadyIff |-> C12_ReadyIff, C12_WaitForReadyWakes |-> C12_WaitForReadyWakes, C12_RoundRobin |-> C12_RoundRobin,
              C12_Callbacks |-> C12_Callbacks, C14_ServeLeavesNothing |-> C14_ServeLeavesNothing,
@@ -97,6 +102,7 @@ Reg(e) ==
   CASE e.what = "serve.start" ->
          /\ tn' = SetT(t, [TN(t) EXCEPT !.key = e.key, !.known = TRUE, !.serves = @ + 1,
                                       !.srv = IF "again" \in DOMAIN e THEN e.of ELSE t,
+                                      !.nofc = IF "nofc" \in DOMAIN e THEN e.nofc ELSE FALSE,
                                       \* a further Serve call on a server that is stopped / stopping
                                       !.stopped = IF "again" \in DOMAIN e THEN TN(e.of).stopped ELSE @,
                                       !.closing = IF "again" \in DOMAIN e THEN TN(e.of).closing ELSE @])
@@ -123,7 +129,7 @@ Reg(e) ==
          /\ tn' = SetT(t, [TN(t) EXCEPT !.stopRet = TRUE, !.stopRets = @ + 1])
          /\ UNCHANGED <<rr, waits, bad>>
     [] e.what = "cb.open" ->
-         /\ tn' = SetT(t, [TN(t) EXCEPT !.cbOpen = @ + 1])
+         /\ tn' = SetT(t, [TN(t) EXCEPT !.cbOpen = @ + 1, !.rev = IF "rev" \in DOMAIN e THEN e.rev ELSE @])
          /\ rr' = [v \in Vias |-> <<>>]
          /\ UNCHANGED <<waits, bad>>
     [] e.what = "cb.close" -> tn' = SetT(t, [TN(t) EXCEPT !.cbClose = @ + 1]) /\ UNCHANGED <<rr, waits, bad>>
